@@ -1,4 +1,6 @@
 import N0Verif.Proofs.XPathDelete
+import N0Verif.Proofs.XPathDeleteRec
+import N0Verif.Proofs.XPathSpellings
 import N0Verif.Props.C01
 /-!
 # C05 — delete and pop remove exactly the addressed node
@@ -9,25 +11,8 @@ nothing else changes).
 namespace N0.C05
 open N0 N0.Py N0.Val N0.XPath
 
-theorem delAt_isSome : ∀ (p : Pos) (t c : Val), p ≠ [] → getAt t p = some c → ∃ t', delAt t p = some t'
-  | [], _, _, h, _ => absurd rfl h
-  | [s], t, c, _, hg => by
-      obtain ⟨x, hc, _⟩ := getAt_cons_some hg
-      cases s with
-      | key k =>
-        obtain ⟨cls, kvs, rfl, hl⟩ := child_key_some hc
-        exact ⟨.dict cls (kvDel k kvs), by simp [delAt, delChild, kvHas, hl]⟩
-      | idx n =>
-        obtain ⟨cls, xs, rfl, _, hlt⟩ := child_idx_some hc
-        exact ⟨.list cls (xs.eraseIdx n), by simp [delAt, delChild, hlt]⟩
-  | s :: s2 :: rest, t, c, _, hg => by
-      obtain ⟨x, hc, hr⟩ := getAt_cons_some hg
-      obtain ⟨x', hx'⟩ := delAt_isSome (s2 :: rest) x c (by simp) hr
-      obtain ⟨t', ht'⟩ := setChild_isSome_of_child hc x'
-      refine ⟨t', ?_⟩
-      rw [delAt]
-      · simp [hc, hx', ht', bind, Option.bind]
-      · intro h; cases h
+theorem delAt_isSome (p : Pos) (t c : Val) (hne : p ≠ []) (hg : getAt t p = some c) :
+    ∃ t', delAt t p = some t' := delAt_isSome' p t c hne hg
 
 /-- **C05 (delete, any spelling, token level).**  Whatever token list spells the position of an
 existing node (index steps in any of the spellings of C01), `delete` removes exactly that node:
@@ -98,21 +83,138 @@ theorem C05_pop_not_present (t t' : Val) (q : Pos) (k : Str) (cls : Cls) (kvs : 
   · rw [delAt_key_missing t q k cls kvs hq (by simpa using hh)] at hdel
     cases hdel
 
-/-- full statement for `recursively=True` (ancestors that became empty dictionaries are removed
-as well): kept visible; the model runs it and the correspondence streams compare it with the
-implementation, the closed form below is not proved yet. -/
-def pruneUp : Val → Pos → Nat → Val
-  | t, _, 0 => t
-  | t, q, k + 1 =>
-    match getAt t (q.take (k + 1)) with
-    | some (.dict _ []) => pruneUp ((delAt t (q.take (k + 1))).getD t) q k
-    | _ => pruneUp t q k
+/-! ### `recursively=True`
 
-def C05_delete_recursive_stmt : Prop :=
-  ∀ (cls : Cls) (kvs : List (Str × Val)) (p : Pos) (c t' : Val) (fuel : Nat),
-    PlainPos p → p ≠ [] → getAt (.dict cls kvs) p = some c → delAt (.dict cls kvs) p = some t' →
-    fuel ≥ 2 * p.length →
-    delete fuel (.dict cls kvs) (slash ++ renderPos p) true = (pruneUp t' p.dropLast (p.length - 1), .ok ())
+Reference: `pruneUp t q k` (defined in `Proofs/XPathDeleteRec.lean`) visits the *position* prefixes
+of `q` of length `k, k-1, …, 1`, deepest first, and removes each one that is an empty dictionary at
+the moment it is visited.  Its defining equations: -/
+
+theorem pruneUp_zero (t : Val) (q : Pos) : pruneUp t q 0 = t := rfl
+
+theorem pruneUp_succ (t : Val) (q : Pos) (k : Nat) :
+    pruneUp t q (k + 1) =
+      match getAt t (q.take (k + 1)) with
+      | some (.dict _ []) => pruneUp ((delAt t (q.take (k + 1))).getD t) q k
+      | _ => pruneUp t q k := by
+  rw [pruneUp, pruneStep]
+  cases hg : getAt t (q.take (k + 1)) with
+  | none => rfl
+  | some v =>
+    cases v with
+    | dict cls kvs => cases kvs <;> simp [isEmptyDict]
+    | _ => simp [isEmptyDict]
+
+/-- **C05 (delete recursively, any spelling, token level).**  Whatever token list spells the
+position of an existing node, `delete(…, recursively=True)` removes that node and then exactly
+the ancestors that became empty dictionaries, deepest first (a position skipped by a merged token
+`key[i]` holds a list and is never removed). -/
+theorem C05_delete_recursive_spelled (fuel : Nat) (toks : List Str) (t : Val) (p : Pos) (c t' : Val)
+    (hs : Spells toks t p c) (hne : toks ≠ []) (hdel : delAt t p = some t')
+    (hf : fuel ≥ 2 * toks.length) :
+    deleteLoop fuel toks true t toks.length true = (pruneUp t' p.dropLast (p.length - 1), .ok ()) :=
+  deleteLoop_rec_spelled fuel toks t p c t' hs hne hdel hf
+
+/-- **C05 (delete recursively).**  Closed form of `d.delete(xpath, recursively=True)` on the
+canonical path of an existing node of a dict-rooted tree with plain keys. -/
+theorem C05_delete_recursive (cls : Cls) (kvs : List (Str × Val)) (p : Pos) (c t' : Val) (fuel : Nat)
+    (hp : PlainPos p) (hne : p ≠ []) (hget : getAt (.dict cls kvs) p = some c)
+    (hdel : delAt (.dict cls kvs) p = some t') (hf : fuel ≥ 2 * p.length) :
+    delete fuel (.dict cls kvs) (slash ++ renderPos p) true
+      = (pruneUp t' p.dropLast (p.length - 1), .ok ()) := by
+  have hs := spells_merged p (.dict cls kvs) c hp hget
+  have hlen := mergedToks_length_le p
+  have htok : tokenize (slash ++ renderPos p) = mergedToks p := tokenize_render p hp
+  unfold delete deleteTokens
+  simp only [htok]
+  exact deleteLoop_rec_spelled fuel _ _ p c t' hs (mergedToks_ne_nil p hne) hdel (by omega)
+
+/-- **nothing else is removed**: when the parent of the deleted node is not an empty dictionary
+afterwards (it is a list, or a dictionary that still has entries), `recursively=True` removes the
+addressed node only. -/
+theorem C05_delete_recursive_stops (cls : Cls) (kvs : List (Str × Val)) (p : Pos) (c t' pv : Val) (fuel : Nat)
+    (hp : PlainPos p) (hne : p ≠ []) (hget : getAt (.dict cls kvs) p = some c)
+    (hdel : delAt (.dict cls kvs) p = some t') (hf : fuel ≥ 2 * p.length)
+    (hpar : getAt t' p.dropLast = some pv) (hnonempty : isEmptyDict pv = false) :
+    delete fuel (.dict cls kvs) (slash ++ renderPos p) true = (t', .ok ()) := by
+  rw [C05_delete_recursive cls kvs p c t' fuel hp hne hget hdel hf]
+  have hl : p.dropLast.length = p.length - 1 := by simp
+  rw [← hl, pruneUp_stop p.dropLast.length t' p.dropLast pv (Nat.le_refl _)
+    (by rw [List.take_of_length_le (Nat.le_refl _)]; exact hpar) (fun _ => hnonempty)]
+
+/-- **C05 (pop, hit, recursively).**  `pop(…, recursively=True)` returns the value lookup returns
+and has the effect of `delete(…, recursively=True)`. -/
+theorem C05_pop_hit_recursive (cls : Cls) (kvs : List (Str × Val)) (p : Pos) (c d : Val)
+    (hp : PlainPos p) (hne : p ≠ []) (hget : getAt (.dict cls kvs) p = some c)
+    (fuel : Nat) (hf : fuel ≥ 2 * p.length) :
+    ∃ t', delAt (.dict cls kvs) p = some t' ∧
+      pop fuel (.dict cls kvs) (slash ++ renderPos p) d true
+        = .ok (pruneUp t' p.dropLast (p.length - 1), c) := by
+  obtain ⟨t', ht'⟩ := delAt_isSome p _ c hne hget
+  refine ⟨t', ht', ?_⟩
+  have hdel := C05_delete_recursive cls kvs p c t' fuel hp hne hget ht' hf
+  have hget' := (N0.C01.C01_resolves_node cls kvs p c d hp hne hget fuel hf).1
+  unfold pop
+  rw [hget']
+  simp only [hdel]
+
+/-! ### every spelling lookup accepts, at the string level -/
+
+/-- **C05 (delete, every spelling).**  Whatever spelling of the path of an existing node is used
+(`renderSp`: prefix none, `/` or `//`; `a[i][j]`, `a[i]/[j]` or `a/[i]/[j]`; each index as `i`,
+`-k`, `last()`, `last()-k` or `i+j`), `delete` removes exactly the node plain Python indexing
+reaches (`posOf`), and with `recursively=True` additionally the emptied dictionary ancestors. -/
+theorem C05_delete_spellings (cls : Cls) (kvs : List (Str × Val)) (lead : Lead) (steps : List StepSp)
+    (c : Val) (hp : PlainSteps steps) (hne : steps ≠ [])
+    (hget : stepsGet (.dict cls kvs) steps = some c) (fuel : Nat) (hf : fuel ≥ 2 * steps.length) :
+    let t := Val.dict cls kvs
+    let p := posOf t steps
+    ∃ t', delAt t p = some t' ∧
+      delete fuel t (renderSp lead steps) false = (t', .ok ()) ∧
+      delete fuel t (renderSp lead steps) true = (pruneUp t' p.dropLast (p.length - 1), .ok ()) := by
+  intro t p
+  have hs := spells_steps steps t c hp hget
+  have hpne : p ≠ [] := spells_pos_ne_nil hs (toksOf_ne_nil steps hne)
+  obtain ⟨t', ht'⟩ := delAt_isSome p t c hpne hs.getAt
+  refine ⟨t', ht', ?_, ?_⟩
+  · simpa using delete_spelling fuel cls kvs lead steps c t' false hp hne hget ht' hf
+  · simpa using delete_spelling fuel cls kvs lead steps c t' true hp hne hget ht' hf
+
+/-- **C05 (pop, every spelling).** -/
+theorem C05_pop_spellings (cls : Cls) (kvs : List (Str × Val)) (lead : Lead) (steps : List StepSp)
+    (c d : Val) (hp : PlainSteps steps) (hne : steps ≠ [])
+    (hget : stepsGet (.dict cls kvs) steps = some c) (fuel : Nat) (hf : fuel ≥ 2 * steps.length) :
+    let t := Val.dict cls kvs
+    let p := posOf t steps
+    ∃ t', delAt t p = some t' ∧
+      pop fuel t (renderSp lead steps) d false = .ok (t', c) ∧
+      pop fuel t (renderSp lead steps) d true = .ok (pruneUp t' p.dropLast (p.length - 1), c) := by
+  intro t p
+  obtain ⟨t', ht', h1, h2⟩ := C05_delete_spellings cls kvs lead steps c hp hne hget fuel hf
+  have hgi := (N0.C01.C01_spellings_string cls kvs lead steps c d hp hne hget fuel hf).1
+  refine ⟨t', ht', ?_, ?_⟩
+  · unfold pop; rw [hgi]; simp only [h1]
+  · unfold pop; rw [hgi]; simp only [h2]; rfl
+
+/-! ### frame: what `delAt` leaves alone -/
+
+/-- **frame (dict entry).**  Removing the entry `k` of the dictionary at `q` changes no position
+that diverges from `q ++ [k]` (neither a prefix of it nor below it). -/
+theorem C05_frame_dict (t t' : Val) (q : Pos) (k : Str) (r : Pos)
+    (hdel : delAt t (q ++ [.key k]) = some t') (hd : Diverge (q ++ [.key k]) r) :
+    getAt t' r = getAt t r :=
+  getAt_delAt_key_frame t t' q k r hdel hd
+
+/-- **frame (list element).**  Removing element `n` of the list at `q`: positions diverging from
+`q` keep their value, elements before `n` keep their index, later ones shift down by one, and the
+list itself is the old one with element `n` erased. -/
+theorem C05_frame_list (t t' : Val) (q : Pos) (n : Nat)
+    (hdel : delAt t (q ++ [.idx n]) = some t') :
+    (∀ r, Diverge q r → getAt t' r = getAt t r) ∧
+    (∀ m r', m < n → getAt t' (q ++ .idx m :: r') = getAt t (q ++ .idx m :: r')) ∧
+    (∀ m r', n ≤ m → getAt t' (q ++ .idx m :: r') = getAt t (q ++ .idx (m + 1) :: r')) ∧
+    (∃ cls xs, getAt t q = some (.list cls xs) ∧ n < xs.length ∧
+      getAt t' q = some (.list cls (xs.eraseIdx n))) :=
+  getAt_delAt_idx_frame t t' q n hdel
 
 /-! Non-vacuity. -/
 def exTree : Val :=
@@ -126,5 +228,46 @@ example : pop 20 exTree ['/', '/', 'k'] (.str ['D']) false
     = .ok (.dict .n0 [(['a'], .dict .plain [(['b'], .list .plain [.int 1, .list .n0 [.str ['x'], .none]])])], .bool true) := by
   decide
 example : pop 20 exTree ['z', '/', 'y'] (.str ['D']) false = .ok (exTree, .str ['D']) := by decide
+
+
+/-- `recursively=True`: `/a/b[0]/c` is removed, then the emptied `b[0]` (a dict inside a list:
+the merged token `b[0]`), then nothing else (`b` is a list, `a` still has it) -/
+def exRec : Val :=
+  .dict .n0 [(['a'], .dict .plain [(['b'], .list .plain [.dict .plain [(['c'], .int 1)]])]), (['k'], .bool true)]
+
+example : delete 20 exRec ['/', '/', 'a', '/', 'b', '[', '0', ']', '/', 'c'] true =
+    (.dict .n0 [(['a'], .dict .plain [(['b'], .list .plain [])]), (['k'], .bool true)], .ok ()) := by decide
+example : delete 20 exRec ['/', '/', 'a', '/', 'b', '[', '0', ']', '/', 'c'] false =
+    (.dict .n0 [(['a'], .dict .plain [(['b'], .list .plain [.dict .plain []])]), (['k'], .bool true)], .ok ()) := by decide
+example : pruneUp (.dict .n0 [(['a'], .dict .plain [(['b'], .list .plain [.dict .plain []])]), (['k'], .bool true)])
+    [.key ['a'], .key ['b'], .idx 0] 3 =
+    .dict .n0 [(['a'], .dict .plain [(['b'], .list .plain [])]), (['k'], .bool true)] := by decide
+
+/-- a chain of dictionaries that all become empty is removed up to the first ancestor with another entry -/
+def exChain : Val :=
+  .dict .n0 [(['a'], .dict .n0 [(['b'], .dict .n0 [(['c'], .int 1)])]), (['k'], .bool true)]
+
+example : delete 20 exChain ['a', '/', 'b', '/', 'c'] true = (.dict .n0 [(['k'], .bool true)], .ok ()) := by decide
+example : pop 20 exChain ['/', 'a', '/', 'b', '/', 'c'] (.str ['D']) true = .ok (.dict .n0 [(['k'], .bool true)], .int 1) := by
+  decide
+-- the hypotheses of `C05_delete_recursive_stops` are inhabited (parent keeps another entry)
+example : getAt (.dict .n0 [(['a'], .int 1), (['k'], .bool true)]) [.key ['a']] = some (.int 1) ∧
+    delAt (.dict .n0 [(['a'], .int 1), (['k'], .bool true)]) [.key ['a']] = some (.dict .n0 [(['k'], .bool true)]) ∧
+    isEmptyDict (.dict .n0 [(['k'], .bool true)]) = false := by decide
+-- frame lemmas: a diverging position / a shifted list element
+example : Diverge ([.key ['a']] ++ [.key ['b']]) [.key ['k']] := by simp [Diverge]
+example : delAt exTree ([.key ['a'], .key ['b'], .idx 1] ++ [.idx 0]) =
+    some (.dict .n0 [(['a'], .dict .plain [(['b'], .list .plain [.int 1, .list .n0 [.none]])]), (['k'], .bool true)]) := by
+  decide
+
+
+-- a spelling: `//a/b/[last()]/c` addresses `/a/b[0]/c` of `exRec`
+example : renderSp .two [.key ['a'], .key ['b'], .idx .last true, .key ['c']] =
+    ['/', '/', 'a', '/', 'b', '/', '[', 'l', 'a', 's', 't', '(', ')', ']', '/', 'c'] ∧
+    stepsGet exRec [.key ['a'], .key ['b'], .idx .last true, .key ['c']] = some (.int 1) ∧
+    posOf exRec [.key ['a'], .key ['b'], .idx .last true, .key ['c']] = [.key ['a'], .key ['b'], .idx 0, .key ['c']] := by
+  decide
+example : delete 20 exRec (renderSp .two [.key ['a'], .key ['b'], .idx .last true, .key ['c']]) true =
+    (.dict .n0 [(['a'], .dict .plain [(['b'], .list .plain [])]), (['k'], .bool true)], .ok ()) := by decide
 
 end N0.C05
